@@ -339,7 +339,16 @@ func modelDefaultTime(in *Interp, c *gt.T) (Val, *RunErr) {
 	return Void, nil
 }
 
-var sqlObfuscator = obfuscate.NewObfuscator(obfuscate.Config{})
+// the engine's answer for ONE subject, independent of earlier subjects: a
+// fresh obfuscator per call (the obfuscator adapts its escape mode to what it
+// has seen before)
+func obfuscateSQL(s string) (string, error) {
+	q, err := obfuscate.NewObfuscator(obfuscate.Config{}).ObfuscateSQLString(s)
+	if err != nil {
+		return "", err
+	}
+	return q.Query, nil
+}
 
 func modelSQLCover(in *Interp, c *gt.T) (Val, *RunErr) {
 	needPoint(in)
@@ -348,11 +357,11 @@ func modelSQLCover(in *Interp, c *gt.T) (Val, *RunErr) {
 	if !ok {
 		return Void, nil
 	}
-	q, err := sqlObfuscator.ObfuscateSQLString(s)
+	q, err := obfuscateSQL(s)
 	if err != nil {
 		return Void, nil
 	}
-	in.Point.Set(pkey(k), Val{q.Query, TStr})
+	in.Point.Set(pkey(k), Val{q, TStr})
 	return Void, nil
 }
 
